@@ -47,7 +47,7 @@ def build_spec(j):
                           literal_values=lits, name=p.get('name'), location=loc(p))
     if p['t'] == 'f':
       return geno.Float(min_value=p['lo'][0] / p['lo'][1], max_value=p['hi'][0] / p['hi'][1],
-                        name=p.get('name'), location=loc(p))
+                        scale=p.get('scale'), name=p.get('name'), location=loc(p))
     if p['t'] == 'u':
       if p.get('hook'):
         # a user hook that enumerates the strings of `hook` in order (contract `HookContract` of the model)
@@ -245,6 +245,12 @@ class C11(Prop):
           break
         spec = G.gen_spec(rng, True, cap)
       yield self.make_case(spec, rng, cap=cap)
+    # float points with every scale hint, stand-alone and inside a conditional (random generation)
+    for scale in (None, 'linear', 'log', 'rlog'):
+      lo, hi = rng.randint(1, 3), rng.randint(4, 9)
+      yield self.make_case(G.F([lo, 2], [hi, 1], scale=scale), rng, n_members=1, n_corrupt=2, n_random=3, cap=cap)
+      yield self.make_case(G.S([G.C(1, [[], [G.F([lo, 1], [hi, 1], scale=scale)]], True, False),
+                                G.F([lo, 4], [lo, 1], scale=scale)]), rng, n_members=1, n_corrupt=2, n_random=3, cap=cap)
     # custom decision points with user hooks (first_dna / next_dna / iter_dna go through the hooks)
     for _ in range(40 if tier == 'quick' else 400):
       yield self.hooked_case(rng)
@@ -488,6 +494,8 @@ class C11(Prop):
       c['validate'] = verdict(lambda: spec.validate(dna))
       fresh = mk_dna(d['tree'])
       c['bind'] = verdict(lambda: fresh.use_spec(spec))
+      # a history on ONE object: the same DNA is bound a second time (a caller that retries, a later hand-off)
+      c['bind_again'] = verdict(lambda: fresh.use_spec(spec))
       if finite:
         try:
           nxt = spec.next_dna(mk_dna(d['tree']))
@@ -594,6 +602,7 @@ class C11(Prop):
       chk('norm[%d,%s]' % (i, kind), ca['norm'], cb['norm'])
       chk('validate[%d,%s]' % (i, kind), ca['validate'] == 'ok', cb['validate'])
       chk('bind[%d,%s]' % (i, kind), ca['bind'] == 'ok', cb['bind'])
+      chk('bind twice[%d,%s]' % (i, kind), ca.get('bind_again', ca['bind']) == 'ok', cb['bind'])
       chk('valid(spec) vs reference[%d,%s]' % (i, kind), G.ref_valid(case['spec'], cb['norm']), cb['valid'])
       if 'next' in ca or 'next' in cb:
         chk('next[%d,%s]' % (i, kind), ca.get('next', 'absent'), cb.get('next', 'absent'))
@@ -702,6 +711,10 @@ class C11(Prop):
         if member and not ok:
           return {'signature': '%s-rejects-member' % api,
                   'what': '%s raises %s on the member %s' % (api, c[api], c['norm'])}
+      if 'bind_again' in c and (c['bind_again'] == 'ok') != (c['bind'] == 'ok'):
+        return {'signature': 'bind-twice-differs',
+                'what': 'use_spec on %s (%s): first call %s, second call on the same object %s; spec %s' % (
+                    c['norm'], d['kind'], c['bind'], c['bind_again'], G.spec_key(spec)[:300])}
       if member and 'next' in c and c['next'] not in (None, 'error'):
         if not G.ref_valid(spec, c['next']):
           return {'signature': 'next-not-a-member', 'what': 'next_dna(%s) = %s' % (c['norm'], c['next'])}
